@@ -355,7 +355,9 @@ class CompiledSelector:
     def __init__(self, expression):
         self.expression = expression or None
         self.code = None
-        self.ns = {func.__name__: func for func in FUNCTION_WHITELIST}
+        # The field type constructors, eg: varint(1) or string("a"), like the names the (non compiled) Selector resolves
+        self.ns = {name: getattr(dynamic_fieldtype, name) for name in WHITELIST_TREE}
+        self.ns.update({func.__name__: func for func in FUNCTION_WHITELIST})
         self.ns["net"] = net
 
         if expression:
